@@ -95,6 +95,11 @@ type Op struct {
 	// NoDeadline: the request's context has no deadline (context.Background with a cancel function,
 	// the commonest way to call the API); DeadlineMs is ignored. The application cancels it after 25 s.
 	NoDeadline bool `json:"noDeadline,omitempty"`
+	// NoResp > 0 (post/put/get/delete/write): the request carries the No-Response option (RFC 7967)
+	// with this value - a second feature next to block-wise bodies, separate responses, observe and the
+	// limits. A response of a class the value marks as not of interest is never sent, so the call ends
+	// at its deadline like one the peer never answers; the body still has to reach the handler intact.
+	NoResp int `json:"noResp,omitempty"`
 }
 
 // UpBody is the request body of operation i.
@@ -628,6 +633,9 @@ func Run(t *testing.T, sc Scenario, track bool) (tr Trace) {
 			if op.ETag {
 				addQ("e=1")
 				opts = append(opts, message.Option{ID: message.ETag, Value: []byte{0xEE, byte(i)}})
+			}
+			if op.NoResp > 0 && op.Kind != "observe" {
+				opts = append(opts, message.Option{ID: message.NoResponse, Value: []byte{byte(op.NoResp)}})
 			}
 			finish := func(resp *pool.Message, err error) {
 				r.Ended, r.Returned = time.Since(start), true
